@@ -233,6 +233,11 @@ func (itr *_UnixFSShardedDir__ListItr) next() (dagpb.PBLink, error) {
 		if err != nil {
 			return nil, err
 		}
+		if maxPadLength(child.data) != itr.maxPadLen {
+			// names below this child would not carry the prefix this
+			// iteration strips
+			return nil, ErrShardWidthMismatch
+		}
 		itr.childIter = &_UnixFSShardedDir__ListItr{
 			_substrate: child._substrate.FieldLinks().Iterator(),
 			nd:         child,
